@@ -51,7 +51,8 @@ ChalGroupCheck(s, keys, contrib, vg, pr, sp, entry) ==
           [] s \in {"marlin", "sonic"}
                /\ (\E i \in 1..n : clist[i].lbound # NONE /\ clist[i].lbound \notin BoundSet(keys)) -> "err"
           [] s = "ipa" /\ (\E i \in 1..n : clist[i].lbound # NONE /\ clist[i].lbound > EffSup(s, keys)) -> "panic"
-          [] s = "ipa" /\ HasMut(pr, 0, "rounds") /\ entry = "check" -> "err"
+          [] s = "ipa" /\ (HasMut(pr, 0, "rounds") \/ HasMut(pr, 0, "forge_extra_round"))
+               /\ (entry = "check" \/ IpaBatchGuardsRounds) -> "err"
           [] s = "ipa" /\ HasMut(pr, 0, "drop_hiding_comm") -> "panic"
           [] s = "pst13" /\ HasMut(pr, 0, "wlen") -> "panic"
           [] OTHER -> "none"
@@ -78,9 +79,15 @@ ChalGroupCheck(s, keys, contrib, vg, pr, sp, entry) ==
       \* with fewer rounds over a key prefix only exists for a polynomial of lower degree and then
       \* proves a true claim; no "unknown" outcome is left for this shape.
       unknown == FALSE
+      \* one round more, produced by the library's own prover over the key padded with identity elements for the
+      \* polynomial p + X^(d+1) b: every equation of the succinct check holds, and the final-key check only sees the
+      \* coefficients the real key has room for
+      forged == s = "ipa" /\ pr.muts = {<<0, "forge_extra_round">>} /\ pr.n = n
+                /\ (\A i \in 1..n : clist[i].src = pr.srcs[i] /\ clist[i].plain = "own" /\ clist[i].lbound = NONE)
+                /\ vg.pt = pr.pt /\ sp = pr.pre
   IN [res |-> IF guard # "none" THEN guard
               ELSE IF unknown THEN "unknown"
-              ELSE IF holds THEN "accept" ELSE "reject",
+              ELSE IF holds \/ forged THEN "accept" ELSE "reject",
       sp |-> sp2]
 
 (***************************************************************************)
